@@ -41,7 +41,7 @@ CODE_TABLEOPS = ("Crng.Tie.CodeTableOps", ["addRoute_eq", "addBlacklist_eq", "ad
                                              "delRewriter_eq", "delAggregator_eq", "delRoute_eq", "cut_eq_eraseIdx", "addDestination_eq", "delDestination_eq"])
 CODE_COMPOSE = ("Crng.Tie.CodeCompose", ["dispatch_dest_sends", "rejected_no_dest_sends", "consumed_iff", "aggTrace_no_dest_send",
                                            "sendAllRoute_dispatch", "sendFirstRoute_dispatch", "destination_match_spec", "baseRoute_match_spec"])
-CODE_READDEST = ("Crng.Tie.CodeReadDest", ["readDestination_eq", "loop_eq", "defaults", "option_step", "unknown_option_rejected", "whileP_congr", "optLoop_pairs"])
+CODE_READDEST = ("Crng.Tie.CodeReadDest", ["readDestination_eq", "loop_eq", "defaults", "option_step", "unknown_option_rejected", "whileP_congr", "optLoop_pairs", "applyOpt_sets_its_field"])
 CODE_GUARDS = ("Crng.Tie.CodeGuards", ["destination_guards_iff", "grafanaNet_guards_iff"])
 CODE_CFG = ("Crng.Tie.CodeCfg", ["initAggregation_eq", "initRewrite_eq", "initBlacklist_eq", "agg_sub_wins"])
 CODE_READAGG = ("Crng.Tie.CodeReadAgg", ["readAddAgg_eq", "loop1_eq", "loop2_eq", "body1_eq", "body2_eq", "mSet_commute", "trailing_defaults"])
